@@ -346,12 +346,12 @@ class UnitaryBuilder(Unitary):
 
         perm = left_perm + right_perm
         a = np.transpose(self.tensor, perm)
-        a = np.reshape(
-            a, (
-                2 ** (self.num_qudits - len(location)),
-                2 ** (self.num_qudits - len(location)),
-                2 ** len(location),
-                2 ** len(location),
-            ),
+        env_dim = int(
+            np.prod([
+                self.radixes[x] for x in range(self.num_qudits)
+                if x not in location
+            ]),
         )
+        loc_dim = int(np.prod([self.radixes[x] for x in location]))
+        a = np.reshape(a, (env_dim, env_dim, loc_dim, loc_dim))
         return np.trace(a)
